@@ -32,7 +32,7 @@ def consume_flat(api: str, src, **kw) -> tuple[list, str | None]:
     return out, None
 
 
-def consume_grouped(api: str, src, keep: bool = True) -> tuple[list, str | None]:
+def consume_grouped(api: str, src, keep: bool = True, meta: bool = False) -> tuple[list, str | None]:
     """Concatenated content of the sinks yielded before the end / the exception."""
     from mc import drivers as DR  # noqa: PLC0415
     from mc import terms as T  # noqa: PLC0415
@@ -52,7 +52,12 @@ def consume_grouped(api: str, src, keep: bool = True) -> tuple[list, str | None]
             from pyjelly.integrations.generic.parse import parse_jelly_grouped  # noqa: PLC0415
         else:
             from pyjelly.integrations.rdflib.parse import parse_jelly_grouped  # noqa: PLC0415
-        for c in parse_jelly_grouped(src):
+        kw = {}
+        if meta:  # the caller asks for frame metadata through a context variable
+            import contextvars  # noqa: PLC0415
+
+            kw["frame_metadata"] = contextvars.ContextVar("frame_metadata")
+        for c in parse_jelly_grouped(src, **kw):
             if keep:
                 kept.append(c)
             out += content(c)
@@ -167,6 +172,8 @@ def run_case(case: dict) -> str | None:
         got, exc = consume_to_graph(case["api"], src, entry["cls"] != "triple")
     elif case["mode"] == "flat_strict":
         got, exc = consume_flat(case["api"], src, logical_type_strict=True)
+    elif case["mode"] == "grouped_meta":
+        got, exc = consume_grouped(case["api"], src, meta=True)
     else:
         fn = consume_flat if case["mode"] == "flat" else consume_grouped
         got, exc = fn(case["api"], src)
@@ -204,7 +211,8 @@ def shard(job) -> dict:
                     continue
                 strict = ("flat_strict",) if entry.get("flat_logical") and source in (
                     "bytesio", "file") else ()
-                for mode in ("flat", "grouped", "graph_parse") + strict:
+                for mode in ("flat", "grouped", "graph_parse") + strict + (
+                        ("grouped_meta",) if source in ("bytesio", "raw") else ()):
                     case = {"corpus": size, "stream": entry["name"], "cut": k, "source": source,
                             "api": api, "mode": mode}
                     acc.evals += 1
